@@ -169,8 +169,14 @@ pub fn gen_history(pid: &str, rng: &mut Rng, uni: &Universe, persistent: bool, s
             },
             "C17" => match roll {
                 0..=54 => {
-                    let id = pick_id(rng);
-                    let peer = [rng.below(9) as u8 + 1; 32];
+                    // two thirds of the registrations go to one document of the history, so that its list
+                    // fills up; a third of those repeat a peer registered there before: the most recent one,
+                    // the oldest one or any (move to the front without duplicating, at every list length)
+                    let id = if rng.chance(2, 3) { uni.docs[0].0 } else { pick_id(rng) };
+                    let earlier: Vec<[u8; 32]> = h.iter().filter_map(|o| match o { SOp::RegisterPeer { ns, peer } if *ns == id => Some(*peer), _ => None }).collect();
+                    let peer = if !earlier.is_empty() && rng.chance(1, 3) {
+                        match rng.below(3) { 0 => { stats.inc("reregister_most_recent"); *earlier.last().unwrap() } 1 => earlier[earlier.len().saturating_sub(5).min(earlier.len() - 1)], _ => *rng.pick(&earlier) }
+                    } else { [rng.below(9) as u8 + 1; 32] };
                     h.push(SOp::RegisterPeer { ns: id, peer });
                     stats.inc("register_peer");
                 }
